@@ -27,7 +27,7 @@ LEVEL_TEXT = ('Lean 4 theorems (Mathlib matrices), for every basis matrix B with
               'leaves a smaller sum of squares; permuting the requested modes permutes the coefficients. The executable model (basis from the '
               'C11 mode model, Cramer solution of the normal equations, compose, remove — wired through the REGENERATED call-site argument projections) is proved equal to these abstract objects; IsUnit det(BtB) is proved equivalent to linear independence of the sampled modes over ordered fields; remove leaves samples outside the mask untouched; a '
               'coefficient vector for zernike_compose with the coefficients at the (regenerated) positions of the requested modes composes '
-              'B·c; the OPD selection `np.where(mask != 0, opd, 0)` of zernike_fit (89e13b8) is REGENERATED (Gen.fitSelect) and consumed by the model and the driver: samples outside the mask do not influence the fit, by the selection itself and for any scalar type incl. Float NaN/inf (fit_ignores_outside_mask); the two einsum contractions are REGENERATED from their subscript strings (Gen.fitContract / Gen.removeContract: the model\'s B·c is the generated contraction, and the generated fit contraction applied to the transposed pseudo-inverse is the abstract fit), the sample numbering of opd.ravel() and basis.reshape(k,-1) is regenerated with its order and proved to agree (C order on both sides); and three concrete Zernike bases (two unnormalised over Q with an all-true mask; one with the DEFAULT normalisation over R on a partial mask: modes [1,2,3], a masked-out sample, det(BtB) = 36) (one ray; a 2x2 array with cosine, sine and radial modes) satisfy the independence hypothesis. The formula (BᵀB)⁻¹Bᵀ used for np.linalg.pinv(basis) is proved to satisfy the four Penrose equations and to be the ONLY matrix X with BXB = B and (BX)ᵀ = BX (pinv_formula_is_moore_penrose), so what is trusted is NumPy\'s documented contract "pinv returns the Moore-Penrose inverse". PARTIAL: that np.linalg.pinv(basis)·opd is the '
+              'B·c; the OPD selection `np.where(mask != 0, opd, 0)` of zernike_fit (89e13b8) is REGENERATED (Gen.fitSelect) and consumed by the model and the driver: samples outside the mask do not influence the fit, by the selection itself and for any scalar type incl. Float NaN/inf (fit_ignores_outside_mask); the two einsum contractions are REGENERATED from their subscript strings (Gen.fitContract / Gen.removeContract: the model\'s B·c is the generated contraction, and the generated fit contraction applied to the transposed pseudo-inverse is the abstract fit), the sample numbering of opd.ravel() and basis.reshape(k,-1) is regenerated with its order and proved to agree (C order on both sides); and three concrete Zernike bases (two unnormalised over Q with an all-true mask; one with the DEFAULT normalisation over R on a partial mask: modes [1,2,3], a masked-out sample, det(BtB) = 36) (one ray; a 2x2 array with cosine, sine and radial modes) satisfy the independence hypothesis. fit, compose and remove are linear maps (fit_compose_remove_linear). The formula (BᵀB)⁻¹Bᵀ used for np.linalg.pinv(basis) is proved to satisfy the four Penrose equations and to be the ONLY matrix X with BXB = B and (BX)ᵀ = BX (pinv_formula_is_moore_penrose), so what is trusted is NumPy\'s documented contract "pinv returns the Moore-Penrose inverse". PARTIAL: that np.linalg.pinv(basis)·opd is the '
               'normal-equation solution, and that the code builds exactly this basis, are checked by correspondence only.')
 LEVEL_NOTE = ('Sign convention inherited from C11: odd-j modes are -sin(|m| theta) (the code evaluates sin(m theta) with m < 0), opposite to Noll (1976); fit, compose and remove use the same basis, so every clause here is independent of it. Trusted: Lean kernel and Mathlib; np.linalg.pinv(basis) = (BᵀB)⁻¹Bᵀ for full column rank and np.einsum contractions (compared on '
               'every call with the Lean model run at Float; basis/compose values to 1e-8, fit/remove to 1e-10 x max(1, cond²) — the bound on the Float model\'s own rounding — while '
